@@ -121,7 +121,7 @@ def mon_nopanic(seq, ctx):
     for op in seq.ops:
         for e in op.events:
             w = e.split(" ")
-            if w[0] in ("panic", "hang", "livelock", "readtimeout", "clienteof", "fencefail"):
+            if w[0] in ("panic", "hang", "livelock", "readtimeout", "clienteof", "fencefail", "lf-without-cr"):
                 site = unesc(w[2]) if len(w) > 2 else ""
                 site = re.sub(r"^(\S+?):\d+", r"\1", site)
                 return [fail("nopanic", "%s:%s" % (w[0], site[:100]), op, event=e)]
@@ -563,7 +563,7 @@ BY_PROP = {
     "C01": ["audience"], "C02": ["ownership"], "C03": ["gate"], "C04": ["membership"],
     "C05": ["nopanic"], "C06": ["cleanup", "membership"], "C07": ["admission"], "C08": ["membership"],
     "C09": ["membership"], "C10": ["notice_silent"], "C11": ["opergrant"], "C12": ["hidden"],
-    "C13": ["reparse"], "C14": [], "C15": ["rename", "membership"], "C16": ["chanlife", "membership"], "C17": [], "C18": ["nopanic"],
+    "C13": ["reparse", "nopanic"], "C14": [], "C15": ["rename", "membership"], "C16": ["chanlife", "membership"], "C17": [], "C18": ["nopanic"],
     "C19": ["counters"], "C20": [],
 }
 
